@@ -66,7 +66,7 @@ def required_counters(tier):
         "kind.anonymous_axis": 100,
         "kind.user_category": 30,
         "kind.union_arraytype": 50,
-        "originals_rechecked": 100, "sibling_groups": 20,
+        "originals_rechecked": 100, "sibling_groups": 20, "union_members_pickled_alone": 50,
         "route.cloudpickle": 200,
         "route.pickle": 400,
         "route.copy": 100,
@@ -277,6 +277,23 @@ def run_shard(rec, seed, shard, tier):
                 rec.count("roundtrips.same_process")
                 if h1 != h0:
                     rec.violation("meaning-changed", dict(case, where="same-process"), f"{route} copy of {expr} accepts differently: {first_diff(v0, v1)}", mechanism=mech(expr, route, "same", "differs"))
+            # a member class of a Union annotation, serialised on its own, must come back as that member
+            if typing.get_origin(ann) is typing.Union and k % 2 == 1:
+                for mi, member in enumerate(typing.get_args(ann)):
+                    if not isinstance(member, type):
+                        continue
+                    hm, vm = vec_hash(member)
+                    for route in ("pickle4", "cloudpickle"):
+                        try:
+                            cpm = pickle.loads(dumps(route, member))
+                        except Exception as e:  # noqa
+                            rec.violation("roundtrip-raises", {"expr": expr, "member": mi, "route": route}, f"{route} of union member #{mi} raised {type(e).__name__}", mechanism=f"{route.rstrip('2345')}-member-raises")
+                            continue
+                        rec.count("union_members_pickled_alone")
+                        rec.case((expr, route, "member", mi), True)
+                        hh, vv = vec_hash(cpm)
+                        if hh != hm:
+                            rec.violation("meaning-changed", {"expr": expr, "member": mi, "route": route}, f"{route} copy of member #{mi} of {expr} accepts differently from that member: {first_diff(vm, vv)}", mechanism=f"{route.rstrip('2345')}-union-member-differs")
             # related annotations loaded together and kept alive: same outer category, same flattened array
             # type and shape string, different inner dtypes (or flat vs nested) - they must stay distinct
             if isinstance(expr[2], list) and k % 2 == 0:
